@@ -92,7 +92,7 @@ CHECKS = {
     note=TB + "; truthfulness premise; unsigned wrap-around ignored; functions in tables/cap_reach.json are not analysed and not claimed"),
  "C02": dict(
     engine="capcheck",
-    technique="same relational abstract interpretation as C01 applied to every load and reading effect; facts must hold at the evaluation of the access (deref-before-counter loops fail); NUL-bounded libc readers on length-declared buffers are undischargeable by construction; sibling cross-check of symmetric copy loops (a counter one copy steps and tests against an object-size limit while the other tests it unstepped); terminator rule (no libc block reader on a string operand with a declared maximum as its length)",
+    technique="same relational abstract interpretation as C01 applied to every load and reading effect; facts must hold at the evaluation of the access (deref-before-counter loops fail); NUL-bounded libc readers on length-declared buffers are undischargeable by construction; sibling cross-check of symmetric copy loops (a counter one copy steps and tests against an object-size limit while the other tests it unstepped); terminator rule (no libc block reader on a string operand with a declared maximum as its length); precision rule (a length probe's bound `x ? x : unlimited` treats an explicit 0 as no bound)",
     category="other",
     text="Each load, memcpy source, libc reader and helper call carries the obligation that the read range lies inside the declared extent (dmax of dest, slen/n/len of a length-declared source, local arrays, constant tables), including lower bounds for backward scans. 304 of 444 obligations are discharged; 22 known findings; 118 obligations in listed reach-limited functions are not claimed. A nested call to a library function that never writes its dest (42 search/compare functions, from the write summaries) is a read obligation on the length handed down. A pointer without a declared length that the function measures with strnlen_s/wcsnlen_s gets the measured length (+ terminator) as its extent from there on; other pointer parameters without a declared length carry the lower-bound obligation only (nothing is read in front of the buffer; searcher results are interior pointers of their argument), that they are read only up to their terminator is not decided. Thorough: also the no-slack configuration.",
     design_ref="DESIGN.md §3.2, §4 C02",
